@@ -431,6 +431,11 @@ func (im *impl) exec(f []string) (res string) {
 			return im.art.VerifDump()
 		}
 		return "tree"
+	case "seekl":
+		if im.art != nil {
+			return im.art.VerifSeekFirst(dec(f[1]))
+		}
+		return "seekl"
 	case "seq":
 		if im.art != nil {
 			return fmt.Sprintf("ws:%d:%d", im.art.WriteSeqNo, im.art.SnapshotSeqNo)
@@ -693,7 +698,9 @@ func (rn *runner) step(f []string, staleProbe bool) string {
 	rr := rn.r.exec(f)
 	fmt.Fprintf(out, "O\t%s\t=>\t%s\n", strings.Join(f, "\t"), ra)
 	heartbeat(rn.id, rn.idx, strings.Join(f, "\t"), true)
-	if f[0] == "bnext" && ra == "kv:|x" {
+	if f[0] == "seekl" {
+		// ART only: the raw seek of the radix tree iterator
+	} else if f[0] == "bnext" && ra == "kv:|x" {
 		// ART declared the snapshot stale (SnapshotSeqNo moved); the RBT snapshot has no such check: not compared
 	} else if f[0] != "seq" && f[0] != "tree" {
 		pcount("art-rbt-agree")
@@ -930,6 +937,14 @@ func (g *gen) observers(touched []byte, final bool) [][]string {
 	default:
 		if touched != nil || final {
 			r = append(r, []string{"tree"})
+		}
+	}
+	if g.cls != "batch" || final {
+		// the raw seek of the radix tree iterator against L2's seek_rank
+		for i := 0; i < 2; i++ {
+			if b := g.bound(); b != "-" && b != "_" {
+				r = append(r, []string{"seekl", b})
+			}
 		}
 	}
 	// a batched snapshot iterator that lives across the following writes
